@@ -304,7 +304,7 @@ func runC06(rc *RC) {
 				doReq(ctx, e.Sess, c)
 				c.returns++
 				c.done, c.ctxErr, c.retStep = true, ctx.Err(), rc.S.Steps
-				cancel()
+				simrt.Settle(cancel, "h:cancel")
 			}
 		}))
 	}
@@ -549,7 +549,7 @@ func runC06Receipts(rc *RC) {
 		byID[c.id] = c
 		tasks = append(tasks, rc.Spawn("req-"+c.id, func() {
 			ctx, cancel := context.WithTimeout(e.Ctx, c.timeout)
-			defer cancel()
+			defer simrt.Settle(cancel, "h:cancel")
 			if c.cancelAt > 0 {
 				rc.Spawn("canceller", func() { simrt.Sleep(c.cancelAt); rc.Fire("cancel"); cancel() })
 			}
